@@ -10,6 +10,8 @@ case input i : {"graph": G, "ops": [op...]}
   P   : {"atoms": [[p,name,msg,sat]..], "expr": null | B}      B : ["atom",i] | ["and",B,B] | ["or",B,B]
   E   : ["atom", var] | ["and",E,E] | ["or",E,E]
   op  : {"op":"loop"} | {"op":"subres","task":"p/name","ok":bool,"sn":n} | {"op":"msg","task":"p/name","sn":n,"msg":text}
+  future triggers (Sched3Fut): instance keys "fut_off": k|null, "ghosts": [[name,p]..], "children_ord" (real order);
+  observation keys "order" (pool in get_tasks() order), "mfo" (TaskPool.max_future_offset), "pb" (_prev_runahead_base_point), "toff" ([[name, offset]..])
 observation (one per state): {"pool":[{"p","n","st","held","q","rh","fl","sn","out":[triggers],"pre":[[[p,name,msg,sat]..]..]}..],
                               "launch":[[p,name,sn]..], "polls":[[p,name]..], "stalled":bool, "stop":str|null, "rl":p|null}
 -/
@@ -60,7 +62,11 @@ def objPairs (j : Json) : List (String × Json) :=
 def parseInst (j : Json) : Except String InstDef := do
   let pre ← ((jArrField? j "pre").getD []).mapM parsePre
   let sui ← ((jArrField? j "sui").getD []).mapM parsePre
-  let chJ := (jField? j "children").getD Json.null
+  -- `children_ord`: the graph children in the iteration order of the real lists (the order in which
+  -- `spawn_on_output` adds them to the pool); `children` (sorted) otherwise
+  let chJ := match jField? j "children_ord" with
+    | some c => c
+    | none => (jField? j "children").getD Json.null
   let children ← (objPairs chJ).mapM fun (k, v) => do
     let cs ← ((jArr? v).getD []).mapM fun c => do
       match jArr? c with
@@ -72,7 +78,13 @@ def parseInst (j : Json) : Except String InstDef := do
       | _ => .error "bad child"
     return (k, cs)
   let np := (jOptField j "next_parentless").bind jInt?
-  return { pre, sui, children, nextParentless := np }
+  -- future triggers: "fut_off" (largest future offset of the instance's prerequisite atoms), "ghosts" ([[name, p]..])
+  let futOff := (jOptField j "fut_off").bind jInt?
+  let ghosts := ((jArrField? j "ghosts").getD []).filterMap fun c =>
+    match jArr? c with
+    | some [n, p] => (jStr? n).bind fun name => (jInt? p).map fun pt => (name, pt)
+    | _ => none
+  return { pre, sui, children, nextParentless := np, futOff, ghosts }
 
 def sortInsts (l : List (Int × InstDef)) : List (Int × InstDef) :=
   l.foldl (fun acc x =>
@@ -205,6 +217,11 @@ def obsJson (g : Graph) (s : State) : Json :=
     ("stalled", Json.bool s.stalled),
     ("stop", match s.stop with | some r => Json.str r | none => Json.null),
     ("rl", jOptInt s.rhLimit),
+    ("order", jOfList (fun (x : Proxy) => Json.arr #[jOfInt x.pt, Json.str x.name]) s.pool),
+    ("mfo", jOptInt s.maxFut),
+    ("pb", jOptInt s.prevBase),
+    ("toff", jOfList (fun (e : String × Int) => Json.arr #[Json.str e.1, jOfInt e.2])
+        (sortBy (fun a b => a.1 < b.1) s.tdefOff)),
     ("hold", Json.mkObj [
       ("tasks", jOfList (fun (k : String × Int) => Json.arr #[jOfInt k.2, Json.str k.1])
         (sortBy (fun a b => a.2 < b.2 || (a.2 == b.2 && a.1 < b.1)) s.tasksToHold)),
